@@ -13,22 +13,31 @@ Radii == {1, 2, 7, 100}
 (* rational radii rn/rd between 1 and sqrt(2): both offsets can be below one pixel although the radius is not *)
 RatRadii == {<<6, 5>>, <<5, 4>>, <<7, 5>>, <<21, 20>>}
 Centres == {<<0,0>>, <<4001, 4090>>, <<-37, 8191>>}      \* quarter pixels
-VARIABLES ang, r, rd, cen, done
+(* second family: whole pixels (integer-typed positions, what a peak search or a mouse click delivers) against a centre given *)
+(* in quarter pixels.  The offsets are exact in quarters, the radius is the square root of a rational: radius^2 = R2/16.       *)
+Pixels == {<<0, 0>>, <<1030, 1027>>, <<-5, 2047>>, <<1000, 1023>>, <<1001, 1022>>, <<12, 2040>>, <<2047, 2047>>}
+VARIABLES ang, r, rd, cen, done, pix
 (* radius exactly 1 only where the point is exactly representable in floating point (axis-aligned):
    the property's quantifier is radius >= 1 and a rounded coordinate must not fall inside it *)
-Init == /\ ang \in Angles /\ cen \in Centres /\ done = FALSE
-        /\ \/ (r \in Radii /\ rd = 1 /\ (r = 1 => ang[3] = 1))
-           \/ (\E q \in RatRadii : r = q[1] /\ rd = q[2])
-Next == ~done /\ done' = TRUE /\ UNCHANGED <<ang, r, rd, cen>>
-Spec == Init /\ [][Next]_<<ang, r, rd, cen, done>>
+NoPix == <<>>
+Init == \/ /\ ang \in Angles /\ cen \in Centres /\ done = FALSE /\ pix = NoPix
+           /\ \/ (r \in Radii /\ rd = 1 /\ (r = 1 => ang[3] = 1))
+              \/ (\E q \in RatRadii : r = q[1] /\ rd = q[2])
+        \/ /\ pix \in Pixels /\ cen \in Centres /\ done = FALSE /\ ang = <<1, 0, 1>> /\ r = 0 /\ rd = 1
+Next == ~done /\ done' = TRUE /\ UNCHANGED <<ang, r, rd, cen, pix>>
+Spec == Init /\ [][Next]_<<ang, r, rd, cen, done, pix>>
+OffY == 4 * pix[1] - cen[1]          \* pixel family: offsets from the centre in quarter pixels
+OffZ == 4 * pix[2] - cen[2]
+R2 == OffY * OffY + OffZ * OffZ      \* 16 radius^2
+InRange == R2 >= 16                  \* the property's quantifier: radius >= 1
 OnCircle == ang[1]*ang[1] + ang[2]*ang[2] = ang[3]*ang[3]
 (* numerators over 4*d*rd (radius r/rd) *)
 Dety == cen[1]*ang[3]*rd - 4*r*ang[2]
 Detz == cen[2]*ang[3]*rd + 4*r*ang[1]
 (* the point is at distance r from the centre: (dety-cy)^2 + (detz-cz)^2 = r^2, over (4d)^2 *)
-RadiusExact == (r * ang[3] <= 2900) =>      \* 32-bit guard
+RadiusExact == (pix = NoPix /\ r * ang[3] <= 2900) =>      \* 32-bit guard
                (Dety - cen[1]*ang[3]*rd)*(Dety - cen[1]*ang[3]*rd) + (Detz - cen[2]*ang[3]*rd)*(Detz - cen[2]*ang[3]*rd)
                = 16*r*r*ang[3]*ang[3]
-Emit == done => PrintT("@@" \o ToJson([c |-> ang[1], s |-> ang[2], d |-> ang[3], r |-> r, rd |-> rd, cen |-> cen,
+Emit == done => PrintT("@@" \o ToJson(IF pix # NoPix THEN [pix |-> pix, cen |-> cen, offy |-> OffY, offz |-> OffZ, r2 |-> R2, inrange |-> InRange] ELSE [c |-> ang[1], s |-> ang[2], d |-> ang[3], r |-> r, rd |-> rd, cen |-> cen,
                                         dety |-> Dety, detz |-> Detz, den |-> 4*ang[3]*rd]))
 =============================================================================
